@@ -121,7 +121,7 @@ Proof.
     + (* the element is still in the old table: carry *)
       apply wp_bind. wp_steps.
       pose proof (rt_find_old _ _ _ Hf2) as (Hnone2 & o2 & Hlo2 & Hl2).
-      rewrite Hlo2. unfold debug_check. cbn [is_some_b negb]. rewrite Bool.andb_false_r. wp_steps.
+      rewrite Hlo2. unfold debug_check. cbn [is_some_b]. wp_steps.
       apply wp_on_unwind. pose proof HI2 as (_ & Hok2 & Ho2). rewrite Hlo2 in Ho2.
       eapply wp_conseq; [apply (rt_carry_spec c s2 o2 HR Hlo2 Hok2)| |].
       * apply old_ok_pre with (c := c). exact Ho2.
